@@ -31,8 +31,10 @@ PROBES = [
     "rewrite-same-value",
     "value-is-a-node-body",
     "value-is-a-default-subtree-body",
+    "write-failed-on-lossy-store",
+    "write-acknowledged-on-lossy-store-readable",
 ]
-FAULTS = ["crash-reopen"]
+FAULTS = ["crash-reopen", "store-lost-node"]
 COMPONENTS = {
     "real": ["trie.smt.SparseMerkleTree set/delete/get/exists/branch/from_db/dict API", "trie.smt.calc_root"],
     "stub": ["SimDB mapping swapped in for the tree's db", "writer / reader / operator actors"],
@@ -57,6 +59,7 @@ class SWorld:
         self.written = set()
         self.idx = -1
         self.obs = []
+        self.degraded = False  # has the store lost node bodies? (see op_lose)
         self.initial_root = self.smt.root_hash
         if self.initial_root != self.ref.initial_root:
             raise Violation("root-mismatch", f"root of a fresh tree is {self.initial_root.hex()}, reference {self.ref.initial_root.hex()}", event=0)
@@ -87,8 +90,17 @@ class SWorld:
 
     # -- commands ------------------------------------------------------------------
     def _write(self, cmd, k, v, fn, what):
+        root_before = self.smt.root_hash
         try:
             ret = fn()
+        except KeyError as e:
+            if not self.degraded:
+                self.viol("lookup-mismatch", f"{what} raised {e!r}")
+            # the store has lost a node this write needs: the write fails, nothing changes
+            if self.smt.root_hash != root_before:
+                self.viol("lookup-mismatch", f"{what} raised {e!r} on a store that lost nodes, yet the root changed")
+            self.st.probe("write-failed-on-lossy-store")
+            return None
         except Exception as e:
             self.viol("lookup-mismatch", f"{what} raised {e!r}")
         k, v = bytes(k), bytes(v)
@@ -111,6 +123,18 @@ class SWorld:
                 bad = None if ret is None else next((i for i in range(min(len(ret), len(hashes))) if ret[i] != hashes[i]), min(len(ret), len(hashes)))
                 self.viol("path-hashes", f"{what} returned path hashes that differ from the reference at depth {None if bad is None else bad + 1} (length {None if ret is None else len(ret)}, expected {len(hashes)})")
         self.check_key(k, sibs)
+        if self.degraded:
+            # a write that returned is readable at once, whatever else the store has lost;
+            # other keys may be out of reach and are not asked
+            if v != b"":
+                try:
+                    got = smt.get(k)
+                except Exception as e:
+                    self.viol("lookup-mismatch", f"{what} returned normally on a store that lost nodes, but get of the key just written raised {e!r}")
+                if got != v:
+                    self.viol("lookup-mismatch", f"{what} returned normally, but get of the key just written gives {got!r}")
+            self.st.probe("write-acknowledged-on-lossy-store-readable")
+            return
         # a rotating sample of other readable keys
         others = sorted(x for x in self.model if x != k)
         for j in range(min(2, len(others))):
@@ -198,6 +222,9 @@ class SWorld:
         except Exception as e:
             self.viol("lookup-mismatch", f"{api}({k.hex()}) raised {e!r}")
         want = (v if readable else KeyError) if api in ("get", "getitem") else readable
+        if self.degraded and (got is KeyError or got is False):
+            # a store that lost nodes may be unable to answer; it may never answer wrongly
+            return "unavailable" if readable else "miss"
         if got is not want and got != want:
             self.viol("lookup-mismatch", f"{api}({k.hex()}) gave {got!r}, expected {want!r} (last write {self.model.get(k)!r}, default {self.default!r})")
         if k in self.model and self.model[k] == self.default and self.default != b"" and api in ("get", "getitem"):
@@ -210,9 +237,27 @@ class SWorld:
         k = unhx(cmd["k"])
         return self.lookup(self.smt, Blob(k) if cmd.get("sub") else k, cmd.get("api", "get"))
 
+    def op_lose(self, cmd):
+        """The store loses one node body (disk corruption, an over-eager cleaner).  From
+        here on reads and writes may fail with KeyError; they may never return wrong data,
+        and a write that returns normally must be readable at once."""
+        raw = self.db.raw()
+        keys = sorted(raw)
+        live = set()
+        for k in self.model:
+            live.update(self.ref.path(self.model, k)[0])
+        stale = [x for x in keys if x not in live and x != self.smt.root_hash]
+        pick = stale if (cmd.get("stale") and stale) else keys
+        del raw[pick[cmd["n"] % len(pick)]]
+        self.degraded = True
+        self.st.fault("store-lost-node")
+        return "lost"
+
     def op_reopen(self, cmd):
         """Operator: a second handle over the same db and root must read identically;
         the run continues on it."""
+        if self.degraded:
+            return "skip"
         try:
             other = SparseMerkleTree.from_db(self.db, fresh(self.smt.root_hash), key_size=self.ks, default=fresh(self.default))
         except Exception as e:
@@ -241,6 +286,8 @@ class SWorld:
         return "ok"
 
     def op_clear_all(self, cmd):
+        if self.degraded:
+            return "skip"
         for k in sorted(self.model):
             try:
                 self.smt.delete(k)
@@ -350,6 +397,10 @@ def generate(rng):
     vals = make_values(rng, unhx(cfg["default"]))
     n = rng.choice(deep([6, 10, 16, 25, 40], [10, 20, 40, 80])) if cfg["ks"] <= 8 else rng.choice(deep([6, 10, 16], [10, 20, 30]))
     cmds = gen_history(rng, keys, vals, n)
+    if rng.random() < 0.15 and len(cmds) > 4:
+        # the store loses node bodies during the last two thirds of the history
+        for _ in range(rng.choice([1, 1, 2, 3])):
+            cmds.insert(rng.randrange(len(cmds) // 3, len(cmds) + 1), {"op": "lose", "n": rng.randrange(1000), "stale": int(rng.random() < 0.7)})
     cmds.append({"op": "clear_all"})
     return {"prop": ID, "cfg": cfg, "cmds": cmds}
 
